@@ -1,15 +1,16 @@
 /-
-  UnytModel.Driver — dispatch over the per-property opcode handlers and the I/O loop.
+  UnytModel.Driver — dispatch over opcode handlers and the I/O loop.
+  Every property has its own driver executable (`Drivers/Cnn.lean` → `drv_cnn`) that lists the
+  handlers it needs, so a model file that no longer compiles for one property never takes
+  another property's correspondence run down with it.  `unytmodel` (Main.lean) serves the
+  shared opcodes (tables, units, conversion).
 -/
 import UnytModel.Ops.Core
 import UnytModel.Ops.Tables
 
 namespace Unyt
 
-/-- registered handlers, tried in order; an opcode nobody claims answers `bad-op` -/
-def handlers : List Handler := [opsCore, opsTables]
-
-def step (st : DriverState) (fields : List String) : DriverState × String :=
+def stepWith (handlers : List Handler) (st : DriverState) (fields : List String) : DriverState × String :=
   let rec go : List Handler → DriverState × String
     | [] => (st, "bad-op")
     | h :: hs => match h st fields with
@@ -17,12 +18,21 @@ def step (st : DriverState) (fields : List String) : DriverState × String :=
       | none => go hs
   go handlers
 
-partial def loop (h : IO.FS.Stream) (out : IO.FS.Stream) (st : DriverState) : IO Unit := do
+partial def loopWith (handlers : List Handler) (h : IO.FS.Stream) (out : IO.FS.Stream) (st : DriverState) : IO Unit := do
   let line ← h.getLine
   if line.isEmpty then return ()
   let l := if line.back == '\n' then String.ofList line.toList.dropLast else line
-  let (st', o) := step st (l.splitOn "\t")
+  let (st', o) := stepWith handlers st (l.splitOn "\t")
   out.putStrLn o
-  loop h out st'
+  loopWith handlers h out st'
+
+/-- the whole driver: read operations from stdin, answer on stdout -/
+def runDriver (handlers : List Handler) : IO Unit := do
+  let stdin ← IO.getStdin
+  let stdout ← IO.getStdout
+  loopWith handlers stdin stdout {}
+
+/-- the shared handlers -/
+def baseHandlers : List Handler := [opsCore, opsTables]
 
 end Unyt
